@@ -123,6 +123,8 @@ def gen_cases(rng, quick):
                       "styles": [s1]})
     for _ in range(n(24, 240)):
         cases.append(gen_cdm_strong(rng))
+    for _ in range(n(16, 160)):
+        cases.append(gen_cdm_sky(rng))
     for _ in range(n(80, 800)):
         cases.append(gen_persist(rng))
     return cases
@@ -179,9 +181,41 @@ def gen_collect(rng):
                 # several clusters may fall into one pixel; positions anywhere inside the pixel (dyadic offsets)
                 gen.append({"clusters": [[rng.randrange(r), rng.randrange(c), float(rng.choice([1, 10, 120, 3000, 10**5])),
                                           rng.choice([0.25, 0.5, 0.75]), rng.choice([0.25, 0.5, 0.75])] for _ in range(m)]})
-        steps.append({"reset": k > 0 and rng.random() < 0.25, "gen": gen})
+        step = {"reset": k > 0 and rng.random() < 0.25, "gen": gen}
+        ncl = sum(len(g["clusters"]) for g in gen if "clusters" in g)
+        if mode in ("clusters", "clusters+clusters") and ncl >= 2 and rng.random() < 0.6:
+            # history: something reads the charge (outputs, a notebook cell, another model), the clusters are then
+            # changed IN PLACE through the public Charge API, and only then the charge is collected
+            op = rng.choice(["set_number", "remove", "move"])
+            ids = sorted(rng.sample(range(ncl), rng.randrange(1, ncl)))  # never all of them
+            edit = {"peek": True, "op": op, "ids": ids}
+            if op == "set_number":
+                edit["values"] = [float(rng.choice([0, 5, 77, 40000])) for _ in ids]
+            elif op == "move":
+                edit["values"] = [[rng.randrange(r), rng.choice([0.25, 0.5, 0.75])] for _ in ids]  # new row, offset
+            step["edit"] = edit
+            mode += "→read→" + op
+        steps.append(step)
         tags.append(mode)
     return {"kind": "collect", "rows": r, "cols": c, "pixel": px, "steps": steps, "styles": [s0], "gen_modes": tags}
+
+
+def step_contributions(case, step):
+    """the exact frames of everything generated in a step, AFTER the in-place edit of the clusters if there is one
+    (derived from what the harness put in, never from detector.charge.array)"""
+    if "edit" not in step:
+        return [contribution_frame(case, g) for g in step["gen"]]
+    cl = [list(x) for g in step["gen"] for x in g["clusters"]]
+    e = step["edit"]
+    if e["op"] == "set_number":
+        for i, v in zip(e["ids"], e["values"]):
+            cl[i][2] = v
+    elif e["op"] == "move":
+        for i, (row, off) in zip(e["ids"], e["values"]):
+            cl[i][0], cl[i][3] = row, off
+    else:
+        cl = [x for i, x in enumerate(cl) if i not in set(e["ids"])]
+    return [contribution_frame(case, {"clusters": cl})]
 
 
 def contribution_frame(case, g):
@@ -193,6 +227,33 @@ def contribution_frame(case, g):
     for i, j, num, _, _ in g["clusters"]:
         f[i][j] += F(num)
     return f
+
+
+def gen_cdm_sky(rng):
+    """bright packets followed (in readout order) by FAINT packets that are still above the 0.01 e- threshold — stars
+    on a sky background: the traps are then fuller than the equilibrium of the packet and the capture formula is
+    negative; visible trapping, release times longer than the transfer period"""
+    direction = rng.choice(["parallel", "parallel", "serial"])
+    ns = rng.randrange(1, 4)
+    r, c = (rng.choice([10, 16, 24]), rng.choice([1, 2, 3])) if direction == "parallel" else (rng.choice([1, 2, 3]), rng.choice([10, 16, 24]))
+    sky = float(rng.choice([1, 5, 20, 100]))
+    px = [[sky] * c for _ in range(r)]
+    length = r if direction == "parallel" else c
+    for line in range(c if direction == "parallel" else r):
+        for _ in range(rng.choice([1, 1, 2])):
+            pos = rng.randrange(1, max(2, length // 2))
+            v = float(rng.choice([1000, 5000, 20000, 60000]))
+            if direction == "parallel":
+                px[pos][line] = v
+            else:
+                px[line][pos] = v
+    t = rng.choice([1e-3, 9.4722e-04, 1e-2])
+    return {"kind": "cdm", "rows": r, "cols": c, "pixel": px, "direction": direction,
+            "beta": rng.choice([0.3, 0.37, 0.6]), "vg": rng.choice([1.62e-10, 1e-10]), "t": t, "fwc": rng.choice([1e5, 175000.0]),
+            "tr": [t * rng.choice([5, 20, 100, 1000]) for _ in range(ns)],
+            "nt": [rng.choice([2e10, 1e11, 1e12]) for _ in range(ns)],
+            "sigma": [rng.choice([1e-10, 1e-9, 1e-15]) for _ in range(ns)],
+            "ci": False, "temperature": rng.choice([200.0, 153.0]), "styles": ["bright-on-sky"]}
 
 
 def gen_cdm_strong(rng):
@@ -301,8 +362,17 @@ def run_impl(case):
                             init_ver_position=np.array([(x[0] + x[3]) * vs for x in cl]),
                             init_hor_position=np.array([(x[1] + x[4]) * hs for x in cl]),
                             init_z_position=z, init_ver_velocity=z, init_hor_velocity=z, init_z_velocity=z)
-                # NOTHING reads detector.charge.array here: reading it refreshes the container and would mask a
-                # collection model that by-passes the property; the oracle uses the generated quantities only
+                e = step.get("edit")
+                if e:
+                    _ = det.charge.array  # the one deliberate read: a history "read → in-place edit → collect"
+                    if e["op"] == "set_number":
+                        det.charge.set_frame_values("number", list(e["values"]), id_list=list(e["ids"]))
+                    elif e["op"] == "move":
+                        det.charge.set_frame_values("position_ver", [(row + off) * vs for row, off in e["values"]], id_list=list(e["ids"]))
+                    else:
+                        det.charge.remove_from_frame(id_list=list(e["ids"]))
+                # otherwise NOTHING reads detector.charge.array before the model: reading it refreshes the container and
+                # would mask a collection model that by-passes the property; the oracle uses the generated quantities only
                 simple_collection(det)
                 states.append(det.pixel.array.tolist())
             return {"states": states}
@@ -443,7 +513,7 @@ def lean_request(case):
     kind = case["kind"]
     if kind == "collect":
         return {"op": "collect_seq", "pixel0": [frac(x) for x in flat(case["pixel"])],
-                "steps": [{"reset": bool(st["reset"]), "contributions": [[frac(x) for x in flat(contribution_frame(case, g))] for g in st["gen"]]}
+                "steps": [{"reset": bool(st["reset"]), "contributions": [[frac(x) for x in flat(f)] for f in step_contributions(case, st)]}
                           for st in case["steps"]]}
     if kind == "qe":
         return {"op": "qe", "qe": frac(case["qe"]), "photons": [frac(x) for x in flat(case["photons"])]}
@@ -488,13 +558,15 @@ def property_predicate(case, impl):
             if k > 0 and step["reset"]:
                 exp = [F(0)] * len(exp)
             gen = [F(0)] * len(exp)
-            for g in step["gen"]:
-                gen = [a + b for a, b in zip(gen, flat(contribution_frame(case, g)))]
+            for f in step_contributions(case, step):
+                gen = [a + b for a, b in zip(gen, flat(f))]
             exp = [F(float(a + b)) for a, b in zip(exp, gen)]
             bad = [(i, a, e) for i, (a, e) in enumerate(zip(flat(got), exp)) if F(a) != e]
             if bad:
                 i, a, e = bad[0]
                 kinds = "+".join("clusters" if "clusters" in g else "array" for g in step["gen"]) or "nothing"
+                if "edit" in step:
+                    kinds += f", charge read, then clusters {step['edit']['ids']} changed in place by {step['edit']['op']}"
                 out.append(("collection", f"step {k} (generated as {kinds}): pixel {divmod(i, case['cols'])} holds {a!r} e-, "
                                           f"previous content + generated charge is {float(e)!r} e- "
                                           f"(generated in this step: {float(sum(gen))!r} e- in total, pixels gained {float(sum(F(x) for x in flat(got)) - sum(exp) + sum(gen))!r})"))
@@ -670,7 +742,8 @@ def body(ck: common.Check):
         shutil.rmtree(TMP, ignore_errors=True)
     ck.count("persist-dyadic-values-not-bit-exact", INEXACT[0])
     ck.rule = ("real CCD/CMOS detectors, frames 1×1…6×6: empty, saturated, single hot pixel, sparse, random, integer and fractional; "
-               "collection of charge generated as arrays and/or clusters, 1–4 steps with and without reset, expected value from the generated "
+               "collection of charge generated as arrays and/or clusters, 1–4 steps with and without reset, also histories 'charge read, clusters "
+               "changed in place (set_frame_values number / position, remove_from_frame ids), then collected'; expected value from the generated "
                "quantities only / QE (sampling on & off, argument or characteristics) / full well (values at capacity ±1 ulp; pixels up to 1e300 and 2^54× above non-round capacities, single hot pixels, float32 frames with float32-representable capacities; exact comparison with min(charge, capacity) per pixel, applied twice = applied once) / "
                "IPC (valid, guard-edge and invalid couplings; uniform and random frames) / CDM parallel & serial, 1–5 species, charge "
                "injection, parameters over their documented ranges, plus a strong-trapping stream (densities 1e12–1e15, 2–5 species, "
